@@ -94,9 +94,184 @@ Section Utf8Text.
       replace (q0 + 1 - 1)%nat with q0 by lia. split; [eapply (step_inv_bwd (q0 + 1) q0 [z]); eauto|exact Hq0].
   Qed.
 
+  (* ---- comparing byte strings; uniqueness of the character that starts (ends) at a place ---- *)
+  Lemma bytes_eqb_refl x : bytes_eqb x x = true.
+  Proof. unfold bytes_eqb. induction x as [|a x IH]; [reflexivity|]. cbn [list_eqb]. rewrite N.eqb_refl, IH. reflexivity. Qed.
+  Lemma bytes_eqb_eq x : forall y, bytes_eqb x y = true -> x = y.
+  Proof.
+    unfold bytes_eqb. induction x as [|a x IH]; intros [|b y] H; cbn [list_eqb] in H; try discriminate; [reflexivity|].
+    apply andb_true_iff in H as [H1 H2]. apply N.eqb_eq in H1. subst. f_equal. apply IH. exact H2.
+  Qed.
+
+  Lemma wf_head c : wf_char c = true -> exists b0 t, c = b0 :: t /\ utf8_seq_len b0 = length c /\ is_utf8_continuation b0 = false.
+  Proof. intro Hc. destruct (wf_facts c Hc) as (_ & _ & b0 & t & E & Hl & Hb & _). exists b0, t. auto. Qed.
+
+  Lemma wf_tail_cont c k : wf_char c = true -> (1 <= k)%nat -> (k < length c)%nat ->
+    exists b, nth_error c k = Some b /\ is_utf8_continuation b = true.
+  Proof.
+    intros Hc Hk1 Hk2. destruct (wf_facts c Hc) as (_ & _ & b0 & t & -> & _ & _ & Ht & _).
+    destruct k as [|k]; [lia|]. cbn [length] in Hk2. cbn [nth_error].
+    destruct (nth_error t k) as [b|] eqn:Eb; [|apply nth_error_None in Eb; lia].
+    exists b. split; [reflexivity|]. rewrite Forall_forall in Ht. apply Ht. eapply nth_error_In; eauto.
+  Qed.
+
+  (* two well-formed characters that start at the same place are the same *)
+  Lemma prefix_unique (l : list N) c1 c2 : wf_char c1 = true -> wf_char c2 = true ->
+    firstn (length c1) l = c1 -> firstn (length c2) l = c2 -> c1 = c2.
+  Proof.
+    intros H1 H2 E1 E2. destruct (wf_head c1 H1) as (a & t1 & -> & L1 & _). destruct (wf_head c2 H2) as (b & t2 & -> & L2 & _).
+    destruct l as [|x l]; [cbn in E1; discriminate|]. cbn [length firstn] in E1, E2.
+    injection E1 as Ea Et1. injection E2 as Eb Et2. subst a b. cbn [length] in L1, L2.
+    assert (Hl : length t1 = length t2) by lia. rewrite <- Et1, <- Et2, Hl. reflexivity.
+  Qed.
+
+  Lemma slice_firstn (l : list N) q n : slice l q (q + n) = firstn n (skipn q l).
+  Proof. unfold slice. replace (q + n - q)%nat with n by lia. reflexivity. Qed.
+
+  Lemma skipn_head {A} (X : list A) : forall k b r, skipn k X = b :: r -> nth_error X k = Some b.
+  Proof.
+    induction X as [|x X IH]; intros [|k] b r E; cbn in *; try discriminate.
+    - inversion E; reflexivity.
+    - eapply IH; eauto.
+  Qed.
+
+  Lemma slice_skip (l : list N) a b q : (a <= b)%nat -> (b <= q)%nat -> slice l b q = skipn (b - a) (slice l a q).
+  Proof.
+    intros H1 H2. unfold slice. rewrite skipn_firstn_comm. rewrite OptBytes.skipn_plus.
+    replace (b - a + a)%nat with b by lia. replace (q - a - (b - a))%nat with (q - b)%nat by lia. reflexivity.
+  Qed.
+
+  (* two well-formed characters that end at the same place are the same *)
+  Lemma suffix_unique_in (h0 : list N) a b q c1 c2 : wf_char c1 = true -> wf_char c2 = true -> (q <= length h0)%nat ->
+    (a <= q)%nat -> (b <= q)%nat -> slice h0 a q = c1 -> slice h0 b q = c2 -> c1 = c2.
+  Proof.
+    intros H1 H2 Hq Ha Hb E1 E2.
+    assert (L1 : length c1 = (q - a)%nat) by (rewrite <- E1; apply slice_len; assumption).
+    assert (L2 : length c2 = (q - b)%nat) by (rewrite <- E2; apply slice_len; assumption).
+    pose proof (wf_len c1 H1). pose proof (wf_len c2 H2).
+    destruct (Nat.lt_trichotomy a b) as [Hlt|[->|Hlt]].
+    - (* c2 is a proper suffix of c1: its first byte is a continuation byte of c1 *)
+      exfalso. rewrite (slice_skip h0 a b q) in E2 by lia. rewrite E1 in E2.
+      destruct (wf_head c2 H2) as (x & t & Ec2 & _ & Hx). rewrite Ec2 in E2.
+      pose proof (skipn_head c1 (b - a) x t E2) as Hn.
+      destruct (wf_tail_cont c1 (b - a) H1 ltac:(lia) ltac:(lia)) as (y & Hy & Hc). rewrite Hn in Hy. inversion Hy; subst. congruence.
+    - congruence.
+    - exfalso. rewrite (slice_skip h0 b a q) in E1 by lia. rewrite E2 in E1.
+      destruct (wf_head c1 H1) as (x & t & Ec1 & _ & Hx). rewrite Ec1 in E1.
+      pose proof (skipn_head c2 (a - b) x t E1) as Hn.
+      destruct (wf_tail_cont c2 (a - b) H2 ltac:(lia) ltac:(lia)) as (y & Hy & Hc). rewrite Hn in Hy. inversion Hy; subst. congruence.
+  Qed.
+
+  Lemma suffix_unique a b q c1 c2 : wf_char c1 = true -> wf_char c2 = true -> (q <= length h)%nat ->
+    (a <= q)%nat -> (b <= q)%nat -> slice h a q = c1 -> slice h b q = c2 -> c1 = c2.
+  Proof. apply suffix_unique_in. Qed.
+
+  (* ---- replaying a capture: a stretch of text between two character boundaries, found again at a boundary, ends at
+     a boundary (UTF-8 is self-synchronizing) ---- *)
+  Lemma wf_app (a b : list (list N)) : wf_text (a ++ b) -> wf_text a /\ wf_text b.
+  Proof. unfold wf_text. intro H. apply Forall_app in H. exact H. Qed.
+
+  Lemma wf_nonempty c : wf_char c = true -> (1 <= length c)%nat.
+  Proof. intro H. pose proof (wf_len c H). lia. Qed.
+
+  Lemma split_prefix : forall A B A' B' : list (list N), wf_text (A ++ B) -> A ++ B = A' ++ B' ->
+    (length (concat A) <= length (concat A'))%nat -> exists M, A' = A ++ M.
+  Proof.
+    induction A as [|a A IH]; intros B A' B' Hwf E Hl; [exists A'; reflexivity|].
+    destruct A' as [|a' A'].
+    - exfalso. cbn [concat length app] in Hl. rewrite app_length in Hl.
+      inversion Hwf as [|x l Ha _]; subst. pose proof (wf_nonempty a Ha). lia.
+    - cbn [app] in E. injection E as Ea Et. subst a'. inversion Hwf as [|x l Ha Hrest]; subst.
+      cbn [concat] in Hl. rewrite !app_length in Hl.
+      destruct (IH B A' B' Hrest Et ltac:(lia)) as [M HM]. exists M. cbn [app]. rewrite HM. reflexivity.
+  Qed.
+
+  Lemma firstn_exact {A} (a b : list A) : firstn (length a) (a ++ b) = a.
+  Proof. rewrite firstn_app, firstn_all, Nat.sub_diag. cbn [firstn]. apply app_nil_r. Qed.
+
+  Lemma chars_prefix : forall mid post : list (list N), wf_text mid -> wf_text post ->
+    forall r, concat post = concat mid ++ r -> exists post2, post = mid ++ post2.
+  Proof.
+    induction mid as [|c mid IH]; intros post Hm Hp r E; [exists post; reflexivity|].
+    inversion Hm as [|x l Hc Hm']; subst. destruct post as [|c' post].
+    - exfalso. cbn [concat] in E. pose proof (wf_nonempty c Hc) as Hn.
+      apply (f_equal (@length N)) in E. rewrite !app_length in E. cbn [length] in E. lia.
+    - inversion Hp as [|x l Hc' Hp']; subst. cbn [concat] in E. rewrite <- app_assoc in E.
+      assert (Heq : c' = c).
+      { apply (prefix_unique (c' ++ concat post) c' c Hc' Hc); [apply firstn_exact|rewrite E; apply firstn_exact]. }
+      subst c'. apply app_inv_head in E. destruct (IH post Hm' Hp' r E) as [post2 H2]. exists post2. cbn [app]. rewrite H2. reflexivity.
+  Qed.
+
+  Lemma slice_tail (P c : list N) : slice (P ++ c) (length P) (length (P ++ c)) = c.
+  Proof. rewrite app_length. rewrite <- (app_nil_r c) at 1. apply slice_mid. Qed.
+
+  Lemma chars_suffix : forall mid pre : list (list N), wf_text mid -> wf_text pre ->
+    forall r, concat pre = r ++ concat mid -> exists pre2, pre = pre2 ++ mid.
+  Proof.
+    induction mid as [|c mid IH] using rev_ind; intros pre Hm Hp r E; [exists pre; rewrite app_nil_r; reflexivity|].
+    destruct (wf_app mid [c] Hm) as [Hm' Hc1]. inversion Hc1 as [|x l Hc _]; subst.
+    rewrite concat_app in E. cbn [concat] in E. rewrite app_nil_r in E.
+    destruct (rev pre) as [|c' rp] eqn:Er.
+    - exfalso. assert (pre = []) by (rewrite <- (rev_involutive pre), Er; reflexivity). subst pre. cbn [concat] in E.
+      pose proof (wf_nonempty c Hc). apply (f_equal (@length N)) in E. rewrite !app_length in E. cbn [length] in E. lia.
+    - assert (Hpre : pre = rev rp ++ [c']) by (rewrite <- (rev_involutive pre), Er; reflexivity). subst pre.
+      destruct (wf_app (rev rp) [c'] Hp) as [Hp' Hc2]. inversion Hc2 as [|x l Hc' _]; subst.
+      rewrite concat_app in E. cbn [concat] in E. rewrite app_nil_r in E. rewrite app_assoc in E.
+      assert (Heq : c' = c).
+      { apply (suffix_unique_in (concat (rev rp) ++ c') (length (concat (rev rp))) (length (r ++ concat mid)) (length (concat (rev rp) ++ c')) c' c Hc' Hc);
+          [lia|rewrite !app_length; lia|rewrite E, !app_length; lia|apply slice_tail|].
+        rewrite E. apply slice_tail. }
+      subst c'. apply app_inv_tail in E. destruct (IH (rev rp) Hm' Hp' r E) as [pre2 H2].
+      exists pre2. rewrite H2, <- app_assoc. reflexivity.
+  Qed.
+
+  Lemma bnd_split q : okp q -> exists C D, cs = C ++ D /\ q = length (concat C) /\ wf_text C /\ wf_text D /\
+    concat C = firstn q h /\ concat D = skipn q h.
+  Proof.
+    intros (C & D & E & Eq). exists C, D. rewrite E in Hw. destruct (wf_app C D Hw) as [HC HD].
+    repeat split; try assumption.
+    - rewrite E, concat_app, Eq. symmetry. apply firstn_exact.
+    - rewrite E, concat_app, Eq. rewrite skipn_app, skipn_all, Nat.sub_diag. reflexivity.
+  Qed.
+
+  Lemma subrange_utf8 fwd p rs re e : okp p -> okp rs -> okp re -> subrange_eq fwd h p rs re = Ok (Some e) -> okp e.
+  Proof.
+    intros Hp Hrs Hre E. unfold subrange_eq in E.
+    destruct (Nat.ltb_spec re rs) as [Hlt|Hle]; [discriminate|].
+    destruct (Nat.ltb_spec (length h) re) as [Hlt2|Hle2]; [discriminate|].
+    (* the captured stretch is a sequence of whole characters M *)
+    destruct Hrs as (A & B & EA & Ers). destruct Hre as (A' & B' & EA' & Ere).
+    assert (HwAB : wf_text (A ++ B)) by (rewrite <- EA; exact Hw).
+    destruct (split_prefix A B A' B' HwAB (eq_trans (eq_sym EA) EA') ltac:(lia)) as [M HM]. subst A'.
+    assert (HwM : wf_text M).
+    { rewrite EA' in Hw. destruct (wf_app _ _ Hw) as [H1 _]. destruct (wf_app _ _ H1) as [_ H2]. exact H2. }
+    assert (Hsl : slice h rs re = concat M).
+    { rewrite EA', <- app_assoc, !concat_app. rewrite Ers, Ere, concat_app, app_length. apply slice_mid. }
+    assert (HL : (re - rs)%nat = length (concat M)) by (rewrite Ere, Ers, concat_app, app_length; lia).
+    destruct (bnd_split p Hp) as (C & D & EC & Ep & HwC & HwD & HfC & HsD).
+    destruct fwd.
+    - unfold try_move_right in E. destruct (p <=? length h)%nat; cbn [bindR] in E; [|discriminate].
+      destruct (length h - p <? re - rs)%nat; [discriminate|]. cbn [bindR] in E.
+      cbn [bindR] in E. destruct (bytes_eqb (slice h p (p + (re - rs))) (slice h rs re)) eqn:Eb; [|cbn in E; discriminate E]. injection E as He. subst e.
+      apply bytes_eqb_eq in Eb. rewrite Hsl, slice_firstn, <- HsD, HL in Eb.
+      destruct (chars_prefix M D HwM HwD (skipn (length (concat M)) (concat D))) as [D2 HD2].
+      { rewrite <- Eb at 1. symmetry. apply firstn_skipn. }
+      exists (C ++ M), D2. split; [rewrite EC, HD2, app_assoc; reflexivity|].
+      rewrite concat_app, app_length, Ep, HL. reflexivity.
+    - unfold try_move_left in E. destruct (Nat.ltb_spec p (re - rs)) as [Hlt3|Hge3]; cbn [bindR] in E; [discriminate|]. cbn [bindR] in E.
+      destruct (bytes_eqb (slice h (p - (re - rs)) p) (slice h rs re)) eqn:Eb; [|cbn in E; discriminate E]. injection E as He. subst e.
+      apply bytes_eqb_eq in Eb. rewrite Hsl in Eb.
+      assert (Hcc : concat C = firstn (p - (re - rs)) (concat C) ++ concat M).
+      { rewrite <- Eb. unfold slice. rewrite HfC. rewrite <- (firstn_skipn (p - (re - rs)) (firstn p h)) at 1.
+        f_equal. rewrite skipn_firstn_comm. replace (p - (p - (re - rs)))%nat with (p - (p - (re - rs)))%nat by reflexivity. reflexivity. }
+      destruct (chars_suffix M C HwM HwC _ Hcc) as [C2 HC2].
+      exists C2, (M ++ D). split; [rewrite EC, HC2, <- app_assoc; reflexivity|].
+      rewrite Ep, HC2, concat_app, app_length, HL. lia.
+  Qed.
+
   Theorem text_ok_utf8 : text_ok u8 unicode h okp.
   Proof.
-    split; [|split; [|split; [|split; [|split]]]].
+    split; [intros q Hq; apply (bnd_len cs q Hq)|]. split; [|split; [|split; [exact subrange_utf8|split; [|split; [|split]]]]].
     - (* K1 *) intros fwd p c p' Hp E. destruct fwd.
       + rewrite cnext_fwd in E. destruct (view_fwd cs p Hw Hp) as [_ Hn _ _|c0 b0 t Ec Hc Hq' Hn _ _ _ _ _]; rewrite Hn in E; inversion E; subst. exact Hq'.
       + rewrite cnext_bwd in E. destruct (view_bwd cs p Hw Hp) as [_ Hn _ _|c0 z q0 Hc Eq Hq0 _ Hn _ _ _ _ _]; rewrite Hn in E; inversion E; subst. exact Hq0.
@@ -162,73 +337,6 @@ Section Utf8Text.
   Qed.
 
   (* ---- a literal is its UTF-8 bytes ---- *)
-  Lemma bytes_eqb_refl x : bytes_eqb x x = true.
-  Proof. unfold bytes_eqb. induction x as [|a x IH]; [reflexivity|]. cbn [list_eqb]. rewrite N.eqb_refl, IH. reflexivity. Qed.
-  Lemma bytes_eqb_eq x : forall y, bytes_eqb x y = true -> x = y.
-  Proof.
-    unfold bytes_eqb. induction x as [|a x IH]; intros [|b y] H; cbn [list_eqb] in H; try discriminate; [reflexivity|].
-    apply andb_true_iff in H as [H1 H2]. apply N.eqb_eq in H1. subst. f_equal. apply IH. exact H2.
-  Qed.
-
-  Lemma wf_head c : wf_char c = true -> exists b0 t, c = b0 :: t /\ utf8_seq_len b0 = length c /\ is_utf8_continuation b0 = false.
-  Proof. intro Hc. destruct (wf_facts c Hc) as (_ & _ & b0 & t & E & Hl & Hb & _). exists b0, t. auto. Qed.
-
-  Lemma wf_tail_cont c k : wf_char c = true -> (1 <= k)%nat -> (k < length c)%nat ->
-    exists b, nth_error c k = Some b /\ is_utf8_continuation b = true.
-  Proof.
-    intros Hc Hk1 Hk2. destruct (wf_facts c Hc) as (_ & _ & b0 & t & -> & _ & _ & Ht & _).
-    destruct k as [|k]; [lia|]. cbn [length] in Hk2. cbn [nth_error].
-    destruct (nth_error t k) as [b|] eqn:Eb; [|apply nth_error_None in Eb; lia].
-    exists b. split; [reflexivity|]. rewrite Forall_forall in Ht. apply Ht. eapply nth_error_In; eauto.
-  Qed.
-
-  (* two well-formed characters that start at the same place are the same *)
-  Lemma prefix_unique (l : list N) c1 c2 : wf_char c1 = true -> wf_char c2 = true ->
-    firstn (length c1) l = c1 -> firstn (length c2) l = c2 -> c1 = c2.
-  Proof.
-    intros H1 H2 E1 E2. destruct (wf_head c1 H1) as (a & t1 & -> & L1 & _). destruct (wf_head c2 H2) as (b & t2 & -> & L2 & _).
-    destruct l as [|x l]; [cbn in E1; discriminate|]. cbn [length firstn] in E1, E2.
-    injection E1 as Ea Et1. injection E2 as Eb Et2. subst a b. cbn [length] in L1, L2.
-    assert (Hl : length t1 = length t2) by lia. rewrite <- Et1, <- Et2, Hl. reflexivity.
-  Qed.
-
-  Lemma slice_firstn (l : list N) q n : slice l q (q + n) = firstn n (skipn q l).
-  Proof. unfold slice. replace (q + n - q)%nat with n by lia. reflexivity. Qed.
-
-  Lemma skipn_head {A} (X : list A) : forall k b r, skipn k X = b :: r -> nth_error X k = Some b.
-  Proof.
-    induction X as [|x X IH]; intros [|k] b r E; cbn in *; try discriminate.
-    - inversion E; reflexivity.
-    - eapply IH; eauto.
-  Qed.
-
-  Lemma slice_skip (l : list N) a b q : (a <= b)%nat -> (b <= q)%nat -> slice l b q = skipn (b - a) (slice l a q).
-  Proof.
-    intros H1 H2. unfold slice. rewrite skipn_firstn_comm. rewrite OptBytes.skipn_plus.
-    replace (b - a + a)%nat with b by lia. replace (q - a - (b - a))%nat with (q - b)%nat by lia. reflexivity.
-  Qed.
-
-  (* two well-formed characters that end at the same place are the same *)
-  Lemma suffix_unique a b q c1 c2 : wf_char c1 = true -> wf_char c2 = true -> (q <= length h)%nat ->
-    (a <= q)%nat -> (b <= q)%nat -> slice h a q = c1 -> slice h b q = c2 -> c1 = c2.
-  Proof.
-    intros H1 H2 Hq Ha Hb E1 E2.
-    assert (L1 : length c1 = (q - a)%nat) by (rewrite <- E1; apply slice_len; assumption).
-    assert (L2 : length c2 = (q - b)%nat) by (rewrite <- E2; apply slice_len; assumption).
-    pose proof (wf_len c1 H1). pose proof (wf_len c2 H2).
-    destruct (Nat.lt_trichotomy a b) as [Hlt|[->|Hlt]].
-    - (* c2 is a proper suffix of c1: its first byte is a continuation byte of c1 *)
-      exfalso. rewrite (slice_skip h a b q) in E2 by lia. rewrite E1 in E2.
-      destruct (wf_head c2 H2) as (x & t & Ec2 & _ & Hx). rewrite Ec2 in E2.
-      pose proof (skipn_head c1 (b - a) x t E2) as Hn.
-      destruct (wf_tail_cont c1 (b - a) H1 ltac:(lia) ltac:(lia)) as (y & Hy & Hc). rewrite Hn in Hy. inversion Hy; subst. congruence.
-    - congruence.
-    - exfalso. rewrite (slice_skip h b a q) in E1 by lia. rewrite E2 in E1.
-      destruct (wf_head c1 H1) as (x & t & Ec1 & _ & Hx). rewrite Ec1 in E1.
-      pose proof (skipn_head c2 (a - b) x t E1) as Hn.
-      destruct (wf_tail_cont c2 (a - b) H2 ltac:(lia) ltac:(lia)) as (y & Hy & Hc). rewrite Hn in Hy. inversion Hy; subst. congruence.
-  Qed.
-
   Lemma mb_fwd_at q c0 : okp q -> is_scalar c0 = true ->
     match_bytes true h q (utf8_encode c0) =
     match u8_next_right h q with
@@ -271,11 +379,11 @@ Section Utf8Text.
 
   Theorem text_enc_utf8 : text_enc u8 h okp.
   Proof.
-    split; [intros q Hq; apply (bnd_len cs q Hq)|]. split.
+    split.
     - intros fwd q c Hq Hs. unfold next_if. destruct fwd.
       + rewrite cnext_fwd, (mb_fwd_at q c Hq Hs). destruct (u8_next_right h q) as [e|[[c' q']|]]; cbn [bindR]; [exact I|reflexivity|reflexivity].
       + rewrite cnext_bwd, (mb_bwd_at q c Hq Hs). destruct (u8_next_left h q) as [e|[[c' q']|]]; cbn [bindR]; [exact I|reflexivity|reflexivity].
-    - intros fwd q c e Hq Hs E. destruct text_ok_utf8 as (Hk1 & _). destruct fwd.
+    - intros fwd q c e Hq Hs E. destruct text_ok_utf8 as (_ & Hk1 & _). destruct fwd.
       + rewrite (mb_fwd_at q c Hq Hs) in E. destruct (u8_next_right h q) as [e0|[[c' q']|]] eqn:En; try discriminate.
         destruct (c =? c'); inversion E; subst. eapply (Hk1 true q c' e Hq). rewrite cnext_fwd. exact En.
       + rewrite (mb_bwd_at q c Hq Hs) in E. destruct (u8_next_left h q) as [e0|[[c' q']|]] eqn:En; try discriminate.
